@@ -148,6 +148,18 @@ Proof.
   unfold patch_text, unpatch_text. rewrite Hp, Hu. simpl. rewrite !unlines_lines. split; reflexivity.
 Qed.
 
+(* the consumer, at the level of texts: what a failing cmp / cmpenv logs turns the text of the
+   first file into the text it was compared with (for cmpenv the expanded one), and back *)
+Theorem cmp_logged_diff_text : forall (expand : bytes -> bytes) env name1 name2 text1 data2 d,
+  do_cmp expand false env name1 name2 text1 data2 = CmpFail d ->
+  patch_text name1 name2 d text1 = Some (cmp_compared expand env data2) /\
+  unpatch_text name1 name2 d (cmp_compared expand env data2) = Some text1.
+Proof.
+  intros expand env n1 n2 t1 d2 d E.
+  destruct (cmp_logged_diff_patches expand env n1 n2 t1 d2 d E) as (_ & _ & Hp & Hu).
+  unfold patch_text, unpatch_text. rewrite Hp, Hu. simpl. rewrite !unlines_lines. split; reflexivity.
+Qed.
+
 (* ---------------------------------------------------------------- Diff(new, old) is not the reversed diff *)
 
 Definition removed (hs : list hunk) : list line :=
@@ -201,3 +213,14 @@ Example ex_text_patch :
   | _ => False
   end.
 Proof. vm_compute. repeat split. Qed.
+
+(* the consumer at text level: cmpenv with V=x, file a = "x\nsame\n", file b = "$V\nother" (no final newline) *)
+Example ex_cmp_text :
+  let expand := fun d : bytes => match d with x24 :: x56 :: r => x78 :: r | _ => d end in
+  let a := [x78; x0a; x73; x0a] in
+  let b := [x24; x56; x0a; x6f] in
+  match do_cmp expand false true [x61] [x62] a b with
+  | CmpFail d => patch_text [x61] [x62] d a = Some [x78; x0a; x6f] /\ unpatch_text [x61] [x62] d [x78; x0a; x6f] = Some a
+  | _ => False
+  end.
+Proof. vm_compute. split; reflexivity. Qed.
